@@ -33,7 +33,9 @@ fn main() {
     match driver {
         "bw_zoom" => { run = bw::run_zoom; gen = bw::gen_zoom; }
         "merge" => { run = bw::run_merge; gen = bw::gen_merge; }
+        "merge_many" => { run = bw::run_merge_many; gen = bw::gen_merge_many; }
         "zoom_dir" => { run = bw::run_zoom_dir; gen = bw::gen_zoom_dir; }
+        "zoom_auto" => { run = bw::run_zoom_auto; gen = bw::gen_zoom_auto; }
         "bw_roundtrip" => { run = bw::run_roundtrip; gen = bw::gen_roundtrip; }
         "bb_query" => { run = bb::run_query; gen = bb::gen_query; }
         "bb_summary" => { run = bb::run_summary; gen = bb::gen_summary; }
@@ -50,7 +52,13 @@ fn main() {
     match a[2].as_str() {
         "run" => {
             let args = a.get(3).cloned().unwrap_or_default();
-            match run(&parse_args(&args)) {
+            // a panic of the real code is a reproduced failure of "never panics", not a crash of the driver
+            let parsed = parse_args(&args);
+            let outcome = match std::panic::catch_unwind(std::panic::AssertUnwindSafe(|| run(&parsed))) {
+                Ok(r) => r,
+                Err(p) => Err(format!("PANIC in the real code: {}", p.downcast_ref::<String>().cloned().or_else(|| p.downcast_ref::<&str>().map(|s| s.to_string())).unwrap_or_else(|| "<non-string payload>".to_string()))),
+            };
+            match outcome {
                 Ok(()) => { println!("HELD driver={} args={}", driver, args); }
                 Err(e) => { println!("REPRODUCED driver={} args={} :: {}", driver, args, e); std::process::exit(1); }
             }
